@@ -11,11 +11,12 @@ CONSTANTS
   MaxHttp = 0
   MaxTcp = 0
   Ticks = FALSE
-  EnvStateModules <- McTwo
+  EnvStateModules <- McGate
   EnvMsgModules <- McNone
   IoFaults = FALSE
   MaxCrash = 0
   TrackInstants = TRUE
   TopN = 1
 PROPERTIES NoPhantomSuccess
+CONSTRAINT McFewInstants
 CHECK_DEADLOCK TRUE
